@@ -5,7 +5,7 @@ ID = "C05"
 LEVEL = "exploration"
 TECHNIQUE = "deterministic simulation: seeded membership/traffic histories (connect, disconnect, reset, reconnect, enableBLOB, sends) against a reference router model, call by call; level 2 through real TCP handlers on a simulated fragmented network"
 RULE = ("scenario = history of register/unregister/re-register/enableBLOB/send operations; level 1 on the real Router with recording "
-        "endpoints and real Drivers, level 2 through real TCP connection handlers where registration is a connect and unregistration a "
+        "endpoints (silent, raising, or answering synchronously from inside the router call) and real Drivers, level 2 through real TCP connection handlers where registration is a connect and unregistration a "
         "close/reset at a seeded instant; every Router.process_message call is compared with RouterModel; distinct = different signature "
         "(level, message kinds routed, number of abstract router states visited, probes hit); non-trivial = at least 2 router calls "
         "across at least 2 distinct abstract router states")
